@@ -247,10 +247,17 @@ func classifyCrash(log string, sig string, exit int) string {
 
 func run(prop string, cfg propCfg, tier string, seed uint64) int {
 	t0 := time.Now()
-	workDir := filepath.Join(*verifDir, ".work", prop)
-	buildDir := filepath.Join(*verifDir, ".build", prop)
+	// scratch directories are private to this invocation (two runs of the same property at the same time must not
+	// rebuild each other's worker binary while it executes); the Go build cache keeps the rebuild cheap
+	tag := fmt.Sprintf("%s.%d", prop, os.Getpid())
+	workDir := filepath.Join(*verifDir, ".work", tag)
+	buildDir := filepath.Join(*verifDir, ".build", tag)
 	os.RemoveAll(workDir)
 	os.MkdirAll(workDir, 0o755)
+	if !*keepWork {
+		defer os.RemoveAll(workDir)
+		defer os.RemoveAll(buildDir)
+	}
 	os.MkdirAll(filepath.Join(*verifDir, "evidence"), 0o755)
 	os.MkdirAll(filepath.Join(*verifDir, "replays"), 0o755)
 
@@ -912,8 +919,10 @@ func doReplay(path string) int {
 		fmt.Println("race reports are schedule dependent: re-run the check itself (the report text is in the replay file)")
 		return 0
 	}
-	buildDir := filepath.Join(*verifDir, ".build", rp.Property)
-	workDir := filepath.Join(*verifDir, ".work", rp.Property+"-replay")
+	buildDir := filepath.Join(*verifDir, ".build", fmt.Sprintf("%s-replay.%d", rp.Property, os.Getpid()))
+	workDir := filepath.Join(*verifDir, ".work", fmt.Sprintf("%s-replay.%d", rp.Property, os.Getpid()))
+	defer os.RemoveAll(buildDir)
+	defer os.RemoveAll(workDir)
 	os.RemoveAll(workDir)
 	os.MkdirAll(workDir, 0o755)
 	bin, _, out, err := buildWorker(buildDir, *repoDir, p)
